@@ -319,7 +319,14 @@ func (c *Conn) handleControl(ctx context.Context, h header) (err error) {
 
 	switch h.opcode {
 	case opPing:
-		return c.writeControl(ctx, opPong, b)
+		err = c.writeControl(ctx, opPong, b)
+		if errors.Is(err, errCloseFrameSent) {
+			// Our close frame is out and nothing may follow it, not even this
+			// pong. That is no reason to stop reading: Close is still waiting
+			// for the peer's close frame.
+			return nil
+		}
+		return err
 	case opPong:
 		c.activePingsMu.Lock()
 		pong, ok := c.activePings[string(b)]
